@@ -19,6 +19,11 @@ BASES = {
     "prejoined_boss": "Parent (Django): select_related on the to-one `boss`",
     "prejoined_parent": "Child: already joined on the to-one `parent` (a relationship navigation filters use)",
     "prejoined_owner": "Child: already joined on the to-one `owner` (a relationship the filter may not use)",
+    "custom_manager": "Django Parent: the non-default manager Parent.positive (get_queryset() filters n > 0), passed as a Manager",
+    "custom_manager_qs": "Django Parent: Parent.positive.all()",
+    "related_children": "Django Child: the related manager Parent(id=1).children (children of parent 1)",
+    "related_tag_parents": "Django Parent: the many-to-many related manager Tag(id=1).parents (parents carrying tag 1)",
+    "related_minions": "Django Parent: the related manager Parent(id=1).minions (parents whose boss is parent 1)",
 }
 VALUE_COL = {"Parent": "n", "Child": "k", "Item": "n", "Ticket": "n"}
 
@@ -30,8 +35,9 @@ def available(backend: str, model: str) -> list:
     if backend == "sa_core":
         return common + (["prefiltered2"] if model == "Parent" else [])
     if backend == "django":
-        extra = ["manager"] + (["prefiltered2", "prejoined_children", "prejoined_boss"] if model == "Parent"
-                               else ["prejoined_parent", "prejoined_owner"])
+        extra = ["manager"] + (["prefiltered2", "prejoined_children", "prejoined_boss", "custom_manager", "custom_manager_qs",
+                                "related_tag_parents", "related_minions"] if model == "Parent"
+                               else ["prejoined_parent", "prejoined_owner", "related_children"])
     else:
         extra = (["prefiltered2", "prejoined_children"] if model == "Parent" else ["prejoined_parent", "prejoined_owner"])
     return common + extra
@@ -42,8 +48,14 @@ def base_term(backend: str, model: str, base: Optional[str]):
     pos = ("cmp", "gt", v, ("int", 0))
     if base in (None, "manager", "ordered", "annotated", "prejoined_boss"):
         return None
-    if base == "prefiltered":
+    if base in ("prefiltered", "custom_manager", "custom_manager_qs"):
         return pos
+    if base == "related_children":
+        return ("cmp", "eq", ("field", "parent"), ("int", 1))
+    if base == "related_minions":
+        return ("cmp", "eq", ("field", "boss"), ("int", 1))
+    if base == "related_tag_parents":
+        return ("lambda", "any", ["tags"], "t", ("cmp", "eq", ("path", ["t", "id"]), ("int", 1)))
     if base == "prefiltered2":
         return ("and", pos, ("cmp", "ne", ("field", "name"), ("null",)))
     if base == "prejoined_children":
@@ -77,6 +89,16 @@ def django_base(M, cls, base: Optional[str]):
         return cls.objects.all()
     if base == "manager":
         return cls.objects
+    if base == "custom_manager":
+        return cls.positive
+    if base == "custom_manager_qs":
+        return cls.positive.all()
+    if base == "related_children":
+        return M.Parent(id=1).children
+    if base == "related_minions":
+        return M.Parent(id=1).minions
+    if base == "related_tag_parents":
+        return M.Tag(id=1).parents
     if base == "prefiltered":
         return cls.objects.filter(**{v + "__gt": 0})
     if base == "prefiltered2":
